@@ -1,0 +1,9 @@
+//go:build verif
+
+package result
+
+// Machine-checked contracts for package revocation/result (checked by /verif/govc; comment-only file).
+
+//@ func NewServerResult(result, server, err)
+//@   ensures [fresh] result0 != nil && fresh(result0)
+//@   ensures [fields] result0.Result == arg0 && result0.Server == server && result0.Error == err && result0.RevocationMethod == RevocationMethodUnknown
